@@ -297,6 +297,10 @@ static double objective(unsigned n_, const double *x_, double *grad_, void *data
     return v;
 }
 
+/* which registration the callback about to run belongs to: every (role, index) gets its own function (trampolines below), so a
+   data pointer that belongs to another constraint is noticed even when both records have the same shape */
+static int cb_role = 0, cb_index = -1;
+
 static double sconstraint(unsigned n_, const double *x_, double *grad_, void *data)
 {
     fdata_t *d = (fdata_t *) data;
@@ -308,6 +312,9 @@ static double sconstraint(unsigned n_, const double *x_, double *grad_, void *da
     ++ncalls; ++nccalls;
     vclock += clockq;
     if (!d || d->magic != 0xC0FFEEu || d->vec || d->role == 0) fprintf(out, "A bad constraint data pointer\n");
+    else if (cb_role && (d->role != cb_role || (cb_index >= 0 && d->index != cb_index)))
+        fprintf(out, "A constraint function registered as role=%d i=%d received the data of role=%d i=%d\n", cb_role, cb_index, d->role, d->index);
+    cb_role = 0; cb_index = -1;
     if (n_ != expect_n) fprintf(out, "A constraint n=%u expected %u\n", n_, expect_n);
     v = cval(d->ck, d->b, d->j0, n, x, grad);
     for (k = 0; k < ninjc; ++k) if (injc_k[k] == nccalls) v = injc_v[k];
@@ -331,6 +338,9 @@ static void mconstraint(unsigned m, double *result, unsigned n_, const double *x
     ++ncalls; ++nccalls;
     vclock += clockq;
     if (!d || d->magic != 0xC0FFEEu || !d->vec || d->role == 0) fprintf(out, "A bad mconstraint data pointer\n");
+    else if (cb_role && (d->role != cb_role || (cb_index >= 0 && d->index != cb_index)))
+        fprintf(out, "A mconstraint function registered as role=%d i=%d received the data of role=%d i=%d\n", cb_role, cb_index, d->role, d->index);
+    cb_role = 0; cb_index = -1;
     if (n_ != expect_n) fprintf(out, "A mconstraint n=%u expected %u\n", n_, expect_n);
     if ((int) m != d->m) fprintf(out, "A mconstraint m=%u expected %d\n", m, d->m);
     for (j = 0; j < m; ++j)
@@ -403,7 +413,20 @@ static void led_report(void)
 
 /* legacy (nlopt_func_old) adapters */
 static double objective_old(int n, const double *x, double *grad, void *data) { return objective((unsigned) n, x, grad, data); }
-static double sconstraint_old(int n, const double *x, double *grad, void *data) { return sconstraint((unsigned) n, x, grad, data); }
+#define NTRAMP 8
+#define TR(r, k) \
+    static double sc_##r##_##k(unsigned n, const double *x, double *g, void *d) { cb_role = r; cb_index = k; return sconstraint(n, x, g, d); } \
+    static void mc_##r##_##k(unsigned m, double *res, unsigned n, const double *x, double *g, void *d) { cb_role = r; cb_index = k; mconstraint(m, res, n, x, g, d); }
+TR(1, 0) TR(1, 1) TR(1, 2) TR(1, 3) TR(1, 4) TR(1, 5) TR(1, 6) TR(1, 7)
+TR(2, 0) TR(2, 1) TR(2, 2) TR(2, 3) TR(2, 4) TR(2, 5) TR(2, 6) TR(2, 7)
+#define TL(p, r) { p##_##r##_0, p##_##r##_1, p##_##r##_2, p##_##r##_3, p##_##r##_4, p##_##r##_5, p##_##r##_6, p##_##r##_7 }
+static nlopt_func sc_tab[2][NTRAMP] = { TL(sc, 1), TL(sc, 2) };
+static nlopt_mfunc mc_tab[2][NTRAMP] = { TL(mc, 1), TL(mc, 2) };
+static nlopt_func sc_for(int role, int idx) { return idx < NTRAMP ? sc_tab[role - 1][idx] : sconstraint; }
+static nlopt_mfunc mc_for(int role, int idx) { return idx < NTRAMP ? mc_tab[role - 1][idx] : mconstraint; }
+/* legacy interface: one function per role (the index is not known to the callback there) */
+static double sconstraint_old_eq(int n, const double *x, double *grad, void *data) { cb_role = 2; cb_index = -1; return sconstraint((unsigned) n, x, grad, data); }
+static double sconstraint_old(int n, const double *x, double *grad, void *data) { cb_role = 1; cb_index = -1; return sconstraint((unsigned) n, x, grad, data); }
 
 /* ------------------------------------------------------------------------------- */
 static void getters(const char *phase, nlopt_opt o)
@@ -448,14 +471,14 @@ static int add_constraints(nlopt_opt o, const char *spec, int role, int *nfd)
         d->magic = 0xC0FFEEu; d->role = role; d->index = idx++;
         if (f[0][0] == 's' && nf >= 5) {
             d->vec = 0; d->m = 1; d->ck = atoi(f[1]); d->b = parsehex(f[3]); d->j0 = atoi(f[4]);
-            r = role == 1 ? nlopt_add_inequality_constraint(o, sconstraint, d, parsehex(f[2]))
-                : nlopt_add_equality_constraint(o, sconstraint, d, parsehex(f[2]));
+            r = role == 1 ? nlopt_add_inequality_constraint(o, sc_for(role, d->index), d, parsehex(f[2]))
+                : nlopt_add_equality_constraint(o, sc_for(role, d->index), d, parsehex(f[2]));
         } else if (f[0][0] == 'v' && nf >= 6) {
             double *tol = NULL;
             d->vec = 1; d->m = atoi(f[1]); d->ck = atoi(f[2]); d->b = parsehex(f[4]); d->j0 = atoi(f[5]);
             parselist(f[3], &tol);
-            r = role == 1 ? nlopt_add_inequality_mconstraint(o, (unsigned) d->m, mconstraint, d, tol)
-                : nlopt_add_equality_mconstraint(o, (unsigned) d->m, mconstraint, d, tol);
+            r = role == 1 ? nlopt_add_inequality_mconstraint(o, (unsigned) d->m, mc_for(role, d->index), d, tol)
+                : nlopt_add_equality_mconstraint(o, (unsigned) d->m, mc_for(role, d->index), d, tol);
             free(tol);
         } else { fprintf(out, "A bad constraint spec\n"); return -1; }
         fprintf(out, "C role=%d i=%d ret=%d\n", role, d->index, (int) r);
@@ -556,7 +579,7 @@ static void one_run(const char *line)
         vclock = gethex(line, "clock0", 0.0);
         ret = nlopt_minimize_econstrained((nlopt_algorithm) alg, (int) n, objective_old, &fdatas[0],
                                           mi, sconstraint_old, cd, (ptrdiff_t) sizeof(fdata_t),
-                                          pe, sconstraint_old, &fdatas[1 + MAXC], (ptrdiff_t) (2 * sizeof(fdata_t)),
+                                          pe, sconstraint_old_eq, &fdatas[1 + MAXC], (ptrdiff_t) (2 * sizeof(fdata_t)),
                                           lbv, ubv, x, &optf,
                                           gethex(line, "stopval", -HUGE_VAL), gethex(line, "ftol_rel", 0.0), gethex(line, "ftol_abs", 0.0),
                                           gethex(line, "xtol_rel", 0.0), xa, 0.0, htol,
